@@ -2,7 +2,7 @@
    Model/TokenFlow.v (call-queue slots); a worker runs at most one task at a time by construction of the worker loop. *)
 From Coq Require Import List Arith Bool.
 From LokyV Require Import Lib.LedgerLib Lib.PoolLib Gen.Ledger Gen.Pool Model.Pool Proofs.PoolThm.
-From LokyV Require Lib.ResizeLib Gen.Resize Model.QueueCap Proofs.QueueCapThm.
+From LokyV Require Lib.ResizeLib Gen.Resize Model.QueueCap Proofs.QueueCapThm Lib.WorkerLib Gen.Worker Proofs.WorkerThm.
 Module ResizeG := LokyV.Gen.Resize.
 Module QC := LokyV.Model.QueueCap.
 Import ListNotations.
@@ -78,3 +78,17 @@ Theorem C08_wake_on_take_would_deliver :
     QC.settled cap W s = true -> QC.r s = Nat.min W (QC.unfinished s).
 Proof. exact QueueCapThm.wake_on_take_would_deliver. Qed.
 Print Assumptions C08_wake_on_take_would_deliver.
+
+(* which of the two the code is: in the worker's loop as regenerated from the source (Gen/Worker.v) nothing is sent to the parent
+   between taking a call item and running it, so the manager is not woken when a slot is freed -- the [false] of the theorems above *)
+Theorem C08_worker_taking_an_item_tells_nobody : WorkerThm.wake_on_take = false.
+Proof. exact WorkerThm.worker_taking_an_item_tells_nobody. Qed.
+Print Assumptions C08_worker_taking_an_item_tells_nobody.
+Theorem C08_loky_small_queue_starves :
+  forall cap W, cap < W -> exists es, let s := QC.run WorkerThm.wake_on_take cap W es QC.q0 in
+    QC.settled cap W s = true /\ QC.r s = cap /\ QC.unfinished s = W.
+Proof.
+  intros cap W L. rewrite WorkerThm.worker_taking_an_item_tells_nobody. exists (QueueCapThm.small_queue_history cap W).
+  destruct (QueueCapThm.every_small_queue_starves cap W L) as (A & B & C & _). repeat split; assumption.
+Qed.
+Print Assumptions C08_loky_small_queue_starves.
